@@ -19,9 +19,9 @@ mv $demo /tmp/wt/$id.demo.rs
 cargo test --offline >/tmp/wt/$id.suite.log 2>&1; suite=$?
 mv /tmp/wt/$id.demo.rs $demo
 # 3. demo passes without the change
-git stash push -q -- src
+git apply -R /tmp/wt/$id.patch || { echo 'cannot revert'; exit 2; }
 cargo test --offline ${FEATURES:-} --test $demoname >/tmp/wt/$id.without.log 2>&1; without=$?
-git stash pop -q
+git apply /tmp/wt/$id.patch || { echo 'cannot re-apply'; exit 2; }
 echo "demo-with-change exit=$with (want !=0); suite-with-change exit=$suite (want 0); demo-without-change exit=$without (want 0)"
 if [ $with -ne 0 ] && [ $suite -eq 0 ] && [ $without -eq 0 ]; then
   mkdir -p /verif/seeded/$name
